@@ -8,6 +8,7 @@ GROUP = "cfg"
 LEAN_PROPS = "Dashu.Props.C19"
 LEAN_AUDIT = "Dashu.Audit.C19"
 JOBS = 12
+READY = True
 
 REFINED = ["serde UBig/IBig binary (LE bytes, sign in the length parity) encode/decode",
            "postcard varint / zig-zag / length-prefixed bytes", "serde_json string quoting (plain characters)",
@@ -563,10 +564,48 @@ def words32(rng, tier):
             yield Case("cfgall", [op, hx(a), hx(b)])
 
 
+def gen_log2(rng, tier, confs):
+    """clause 2: log2_bounds of u8..u128 / UBig / IBig in each configuration (the std and the no_std
+    estimator give different bounds, so every configuration is asked separately)"""
+    vals = [0, 1, 2, 3, 4, 5, 6, 7, 9, 15, 16, 17, 18, 31, 33, 127, 129, 254, 255, 256, 257, 353, 354, 355, 0x1fe, 0x1ff, 0x200,
+            0x201, 0x3ff, 0x401, 0x407f, 0x4080, 0x4081, 0x7fff, 0x8001, 0xff00, 0xfffe, 0xffff, 0x10001, 0x10002, 0x1ffff,
+            0xffffff, 0x1000001, 0x1fffffe, 0x1ffffff, 0x2000001]
+    for k in range(2, 128):
+        vals += [(1 << k) - 1, (1 << k) + 1, 1 << k]
+        if k >= 16:
+            vals += [(0x8000 << (k - 15)) + 1, (0x8000 << (k - 15)) + (1 << (k - 15)) - 1, (0x8001 << (k - 15)), (0xffff << (k - 15)) | ((1 << (k - 15)) - 1),
+                     (0xff7f << (k - 15)) | 1]
+    n = 150 if tier == "quick" else 3000
+    for _ in range(n):
+        vals.append(rng.getrandbits(rng.randrange(1, 129)))
+    vals = sorted(set(v for v in vals if v < 2 ** 128))
+    big = []
+    for w in (1, 2, 3, 4, 5, 8, 17, 40):
+        for _ in range(3 if tier == "quick" else 20):
+            for W in (32, 64):
+                big.append(nat_pattern(rng, w, rng.choice(PATTERNS), W))
+    big += [2 ** 64, 2 ** 64 + 1, 2 ** 128 - 1, 2 ** 128, 2 ** 128 + 1, 2 ** 192 - 1, 2 ** 4096, 2 ** 4096 + 1, 2 ** 30000 - 1]
+    if tier == "quick":
+        sample = rng.sample(vals, min(len(vals), 260))
+    else:
+        sample = vals
+    for conf in confs:
+        for lo in range(0, 65536, 4096):
+            yield Case("cfg", [conf, "lg.range", dec(lo), dec(lo + 4096)])
+        for v in sample:
+            for ty, bits in (("u8", 8), ("u16", 16), ("u32", 32), ("u64", 64), ("u128", 128)):
+                if v < (1 << bits) and (v >= (1 << (bits // 2)) or rng.random() < 0.2 or bits == 8):
+                    yield Case("cfg", [conf, "lg.p", ty, hx(v)])
+        for v in big + (sample if tier == "thorough" else sample[:80]):
+            yield Case("cfg", [conf, "lg.u", hx(v)])
+            yield Case("cfg", [conf, "lg.i", hx(-v)])
+
+
 def generate(rng, tier):
     confs = list(cfgbuild.QUICK) if tier == "quick" else list(cfgbuild.ALL)
     for c in confs + [cfgbuild.UNSUPPORTED]:
         yield Case("cfg", [c, "cfg.self"], nontrivial=False)
+    yield from gen_log2(rng, tier, confs)
     yield from gen_serde_values(rng, tier)
     yield from gen_decode_pc(rng, tier)
     yield from gen_decode_json(rng, tier)
